@@ -233,6 +233,7 @@ type accExtractor struct {
 	closures      map[token.Pos]*closureInfo
 	lockVars      map[types.Object]string        // local *sync.Mutex variables → the mutex they point to
 	putsParam     map[*types.Func]map[int]string // function → parameter index → pool it hands the argument to
+	skLockOps     int                            // lock operations (on named mutexes) the skeleton builder translated
 }
 
 func (x *accExtractor) typeDisplay(tn *types.TypeName) string {
@@ -1704,6 +1705,37 @@ func (x *accExtractor) emit(root string) error {
 		}
 	}
 	sort.Strings(missed)
+	// every Lock/RLock/Unlock/RUnlock call on a mutex the extractor can name must have been translated into a skeleton
+	srcLockOps := 0
+	for _, p := range x.pkgs {
+		w := &walker{x: x, p: p}
+		for _, f := range p.files {
+			var cur *funcNode
+			ast.Inspect(f, func(n ast.Node) bool {
+				if fd, ok := n.(*ast.FuncDecl); ok {
+					if o, _ := p.info.Defs[fd.Name].(*types.Func); o != nil {
+						cur = x.funcs[o]
+					}
+				}
+				c, ok := n.(*ast.CallExpr)
+				if !ok {
+					return true
+				}
+				callee, recv := w.calleeOf(c)
+				if callee == nil || recv == nil || callee.Pkg() == nil || callee.Pkg().Path() != "sync" {
+					return true
+				}
+				if _, isMu := isMutexType(p.info.TypeOf(recv)); !isMu {
+					return true
+				}
+				w.fn = cur
+				if w.lockID(recv) != "" {
+					srcLockOps++
+				}
+				return true
+			})
+		}
+	}
 	// dedupe identical rows at the same site
 	seen := map[string]bool{}
 	var rows []*accRow
@@ -1987,6 +2019,8 @@ func (x *accExtractor) emit(root string) error {
 		Locks       []string            `json:"locks"`
 		Exported    []string            `json:"exported_methods"`
 		Missed      []string            `json:"missed_sites"`
+		SrcLockOps  int                 `json:"lock_ops_in_source"`
+		SkLockOps   int                 `json:"lock_ops_in_skeletons"`
 		Aliases     []string            `json:"pointer_aliases"`
 		CHAEdges    int                 `json:"interface_call_edges"`
 	}{Rows: rows, Excluded: excluded, Unresolved: x.unresolved, Confinement: confinement, Used: used, Entry: map[string][]string{}, Fields: len(fields), Locks: locks}
@@ -2022,6 +2056,7 @@ func (x *accExtractor) emit(root string) error {
 	sort.Strings(x.aliasWhy)
 	out.Aliases, out.CHAEdges = x.aliasWhy, x.chaEdges
 	out.Missed = missed
+	out.SrcLockOps, out.SkLockOps = srcLockOps, x.skLockOps
 	jb, _ := json.MarshalIndent(out, "", " ")
 	os.MkdirAll(filepath.Join(root, ".build", "c10"), 0o755)
 	if err := os.WriteFile(filepath.Join(root, ".build", "c10", "accesses.json"), jb, 0o644); err != nil {
